@@ -64,6 +64,12 @@ example : (match (Rodeo.new 255 2 1000).tryIntern C02.constEnv [1, 2, 3] true wi
 body of `Rodeo::clear` regenerated from the source is exactly the three `clear()` calls. -/
 theorem clear_body_is_three_clears : Extracted.rodeoClearBody = .clears [.map, .strings, .arena] := by decide
 
+/-- ... and the arena's `clear` resets every block of its vector, unconditionally, each by setting its fill index to
+0 - what `clear_mem` says of the model (`∀ b ∈ r.clear.arena.all, b.data = []`).  A loop that stops early, skips a
+block or is taken only under a condition is an unrecognised shape. -/
+theorem arena_clear_rewinds_every_block :
+    Extracted.arenaClearShape = .everyBlock ∧ Extracted.bucketClearResetsIndex = true := by decide
+
 /-- The code this file's theorems are about is the same under every feature configuration: the regenerated
 census of conditional compilation contains import blocks, whole serde impls, optional-dependency impls and
 module declarations only, and no gate inside any function body (`Lemmas/Config.lean`). -/
